@@ -59,6 +59,12 @@ func rateLimitMiddleware(limit *ast.RateLimit) server.Middleware {
 		perMinute = (int(limit.Requests) + 59) / 60
 	case "day", "d":
 		perMinute = (int(limit.Requests) + 1439) / 1440
+	case "min", "minute", "m":
+	default:
+		// A window this function cannot convert has no enforceable rate.
+		// The parser rejects such a declaration; an AST built by hand gets
+		// the strictest reading rather than an invented one.
+		perMinute = 1
 	}
 	if perMinute < 1 {
 		perMinute = 1
